@@ -367,7 +367,21 @@ def all_points(world):
 
 
 def doctest_ids(world):
-    return [dtid for dtid, dt, mod in W.iter_doctests(world)]
+    return [dtid for dtid, dt, mod in W.iter_doctests(world) if not dt.get('zero_arg')]
+
+
+def add_zero_funcs(rng, mod, n, pfx='z'):
+    """functions without a docstring that can be called without arguments: the native runner
+    turns them into implicit examples when nothing documented matches the command.
+    -> [(dtid, pid)]"""
+    out = []
+    short = mod['name'].split('.')[-1]
+    for j in range(n):
+        name = 'z%d' % j
+        pid = '%s%s%ss0a' % (pfx, short, name)
+        mod['items'].append({'kind': 'zfunc', 'name': name, 'pid': pid, 'emits': rng.random() < 0.4})
+        out.append(('%s::%s:0' % (mod['name'], name), pid))
+    return out
 
 
 def fix_chunk_starts(steps):
